@@ -74,7 +74,7 @@ def build_dag(dag, fmt="2a", trees=None, branch=None, props=None, timestamp=1000
                     actions.append(("add", (path, fid, kind, content)))
                 elif kind == "file":
                     actions.append(("modify", (path, content)))
-        bb.build_snapshot([rid(p) for p in parents] if parents else None, actions, revision_id=rid(rev),
+        bb.build_snapshot([rid(p) for p in parents] if parents else (None if first else []), actions, revision_id=rid(rev),
                           timestamp=timestamp + i, committer=committer, message="msg %s" % rev,
                           **({"revprops": props[rev]} if props and rev in props else {}))
         known.add(rev)
